@@ -70,12 +70,16 @@ class Hooks:
         self.after_resp = {}  # id(order) -> (remaining, matched, status) right after the place response
         self.first_cb = {}
         self.viol = []
+        self.ticks = []  # per update: (available to back, available to lay, matched so far per order) of runner (1, 0)
 
     def post_execute(self, w, package):
         for o in package._orders:
             self.after_resp.setdefault(id(o), (o.size_remaining, o.size_matched, o.status.name, o.simulated.size_cancelled, o.simulated.size_lapsed, [tuple(m[1:]) for m in o.simulated.matched]))
 
     def tick_end(self, w, market, mb):
+        r = [x for x in mb.runners if (x.selection_id, x.handicap) == (1, 0)]
+        if r:
+            self.ticks.append(([(l["price"], l["size"]) for l in r[0].ex.available_to_back], [(l["price"], l["size"]) for l in r[0].ex.available_to_lay], {id(o): (o.size_matched, o.status.name) for o in market.blotter}))
         for o in market.blotter:
             if id(o) in self.after_resp and id(o) not in self.first_cb:
                 self.first_cb[id(o)] = (o.status.name, o.complete)
@@ -89,8 +93,13 @@ def _sat(side, price, limit, tol=F(0)):
 def _one(args):
     levels, bpe, full_match, trades = args[:4]
     MENU = MENU_PENNY if (len(args) > 4 and args[4] == "penny") else globals()["MENU"]
-    book0 = {1: {"atb": levels, "atl": levels, "trd": [[2.0, 10]]}, 2: {"atb": [[3.0, 5]], "atl": [[3.2, 5]]}}
-    spec = simx.MarketSpec(book0=book0)
+    # "avail": config.simulation_available_prices - resting orders are (also) filled from prices that become
+    # available later; the limit and the order size bind there all the same (clause a, oversize)
+    avail_mode = len(args) > 4 and args[4] == "avail"
+    # decoy: the same selection id on another handicap line with a deep book at prices every order would take -
+    # an order on (1, 0) must be matched against its own runner's book only
+    book0 = {(1, 0): {"atb": levels, "atl": levels, "trd": [[2.0, 10]]}, (2, 0): {"atb": [[3.0, 5]], "atl": [[3.2, 5]]}, (1, 0.5): {"atb": [[3.5, 100]], "atl": [[1.2, 100]], "trd": [[2.0, 10]]}}
+    spec = simx.MarketSpec(book0=book0, sels=((1, 0), (2, 0), (1, 0.5)))
     ticks = [[200, ["Q"]]] + [[200, ev] for ev in trades]
     acts = [["TX", [["P", dict(t)] for t in MENU], []]]
     h = Hooks()
@@ -98,6 +107,7 @@ def _one(args):
         [(spec, ticks)],
         [dict(script={(0, 0): acts}, kw=dict(max_order_exposure=None, max_selection_exposure=None, max_live_trade_count=10**6))],
         hooks=h,
+        cfg=dict(simulation_available_prices=True) if avail_mode else None,
         client_kw=dict(best_price_execution=bpe, simulated_full_match=full_match, min_bet_validation=(MENU is not MENU_PENNY)),
     ).run()
     out = []
@@ -112,7 +122,7 @@ def _one(args):
     best_back = max(avail) if avail else None
     best_lay = min(avail) if avail else None
     sig = []
-    case = dict(levels=levels, bpe=bpe, full_match=full_match, trades=trades, menu="penny" if MENU is MENU_PENNY else "std")
+    case = dict(levels=levels, bpe=bpe, full_match=full_match, trades=trades, menu="penny" if MENU is MENU_PENNY else ("avail" if avail_mode else "std"))
     for t, o in zip(MENU, st.known):
         side, lim, size = t["side"], t["price"], t["size"]
         fok = t["tif"] == "FILL_OR_KILL"
@@ -184,7 +194,24 @@ def _one(args):
                 counts["rested"] += 1
             # resting continuation: every later fragment still respects the limit and the size
             later = o.simulated.matched[len(frags_at_resp) :]
-            if later:
+            if later and avail_mode:
+                counts["available_price_fills"] = counts.get("available_price_fills", 0) + 1
+                # per update: no more than what that update's book offers at prices satisfying the limit, plus
+                # (half of) what traded there - nothing trades in these histories
+                counts["clause:C05.b"] += 1
+                prev_m = None
+                for atb_, atl_, ms in h.ticks:
+                    cur, st_ = ms.get(id(o), (None, None))
+                    if cur is None or st_ == "PENDING":
+                        continue  # the update in which the placement itself executes is not judged here (clause b above)
+                    if prev_m is not None and cur > prev_m + 1e-9:
+                        lad = atb_ if side == "BACK" else atl_
+                        cap_u = sum(z for p_, z in lad if _sat(side, p_, lim))
+                        if cur - prev_m > cap_u + 1e-9:
+                            out.append(core.v("C05.b", key("available-price level availability"), "%s limit %s took %s in one update, the book offered %s at its price or better (%s)" % (side, lim, round(cur - prev_m, 2), cap_u, lad), dict(case, order=t)))
+                            break
+                    prev_m = cur
+            elif later:
                 counts["passive_fills"] += 1
                 # a resting order cannot take more than (half of) what traded at prices satisfying its limit
                 cap = 0.0
@@ -221,6 +248,9 @@ def _dedup(vs, per_key=2):
 TRADES = (["T", 1, [[1.9, 8]]], ["T", 1, [[2.0, 8]]], ["T", 1, [[2.1, 8]]], ["T", 1, [[2.5, 4], [1.9, 4]]], ["T", 1, []], ["B", 1, "atl", [[2.6, 3]]])
 
 
+AVAIL_EVENTS = tuple(["B", 1, side, lv] for side in ("atb", "atl") for lv in ([[2.1, 1], [2.0, 5]], [[2.5, 2], [1.9, 5]], [[2.02, 1], [2.0, 1], [1.9, 9]], [[3.0, 1], [2.5, 1], [2.1, 9]]))
+
+
 def run(tier):
     rep = core.Report("C05", tier, "E3 gridx + E1 simx")
     if tier == "thorough":
@@ -242,6 +272,11 @@ def run(tier):
         for n in range(1, tlen + 1):
             for seq in itertools.product(TRADES, repeat=n):
                 jobs.append((lv, True, False, [list(e) for e in seq]))
+    # resting orders with simulation_available_prices: later books bring prices at / through / behind the limits
+    for lv in ([], [[2.0, 1]]):
+        for n in range(1, tlen + 1):
+            for seq in itertools.product(AVAIL_EVENTS, repeat=n):
+                jobs.append((lv, True, False, [list(e) for e in seq], "avail"))
     # penny-wide levels (optionally in front of a deep level at the worst price)
     for lv in books(3, (0.01, 0.02), PENNY_LADDER):
         for deep in (None, 50):
@@ -256,7 +291,7 @@ def run(tier):
         placements += len(MENU)
         if r["outcome"]:
             rep.outcomes.add(r["outcome"])
-    rep.need("crossed_2_levels", "fok_filled", "fok_killed", "bpe_lapsed", "rested", "passive_fills")
+    rep.need("crossed_2_levels", "fok_filled", "fok_killed", "bpe_lapsed", "rested", "passive_fills", "available_price_fills")
     rep.sample({"book_levels": bks[200], "bpe": True, "orders": MENU[:3]})
     rep.sample({"book_levels": jobs[-1][0], "trades": jobs[-1][3]})
     rep.states = len(jobs)
